@@ -33,15 +33,15 @@ variable {α : Type} [Add α] [Sub α] [Mul α] [Div α] [Neg α] [LT α] [LE α
   [DecidableLT α] [DecidableLE α] [OfScientific α] [KOps α]
 variable {σ : Type}
 
-/-- mirrors: sound/streaming/sound.rs::TimestampedFrame -/
+/-- mirrors: streaming/sound.rs::TimestampedFrame -/
 structure TimestampedFrame (α : Type) where
   frame : Frame α
   index : Nat
 
-/-- mirrors: decode_scheduler.rs::BUFFER_SIZE -/
+/-- mirrors: streaming/sound/decode_scheduler.rs::BUFFER_SIZE -/
 def bufferSize : Nat := 16384
 
-/-- mirrors: data.rs::ERROR_BUFFER_CAPACITY -/
+/-- mirrors: streaming/data.rs::ERROR_BUFFER_CAPACITY -/
 def errorBufferCapacity : Nat := 1
 
 /-- mirrors: streaming/settings.rs::StreamingSoundSettings -/
@@ -63,12 +63,12 @@ structure StreamingSoundData (σ α : Type) where
   settings : StreamingSoundSettings α
   slice : Option (Nat × Nat)
 
-/-- mirrors: StreamingSoundData::slice -/
+/-- mirrors: streaming/data.rs::StreamingSoundData::slice -/
 def StreamingSoundData.withSlice (d : StreamingSoundData σ α) (region : Option (Region α)) :
     StreamingSoundData σ α :=
   { d with slice := region.map (fun r => r.toSamples d.sampleRate d.decFrames) }
 
-/-- mirrors: decode_scheduler.rs::NextStep -/
+/-- mirrors: streaming/sound/decode_scheduler.rs::NextStep -/
 inductive NextStep where
   | continue | wait | «end»
 deriving DecidableEq, Repr
@@ -81,7 +81,7 @@ inductive RunOutcome where
   | fault (f : Fault)
 deriving DecidableEq, Repr
 
-/-- mirrors: sound.rs::{StreamingSound, Shared} + decode_scheduler.rs::DecodeScheduler + the rings and
+/-- mirrors: streaming/sound.rs::StreamingSound, streaming/sound.rs::Shared, streaming/sound/decode_scheduler.rs::DecodeScheduler + the rings and
     command channels created by data.rs::split -/
 structure Sys (σ α : Type) where
   /-- `slice`, `num_frames` (both sides, constant) -/
@@ -165,7 +165,7 @@ namespace Sys
 
 /-! ### construction (`StreamingSoundData::split`) -/
 
-/-- mirrors: data.rs::split = DecodeScheduler::new (ring pre-seeded with a zero "previous" frame,
+/-- mirrors: streaming/data.rs::StreamingSoundData::split = streaming/sound/decode_scheduler.rs::DecodeScheduler::new (ring pre-seeded with a zero "previous" frame,
     `num_frames` (an inverted slice panics), `decoder.seek(start_position)?`, `Transport::new`) then
     StreamingSound::new (`current_frame = transport.position`, `shared.position = current_frame / rate`) -/
 def new (D : Decoder σ α) (d : StreamingSoundData σ α) : Except Err (Sys σ α) :=
@@ -196,7 +196,7 @@ def new (D : Decoder σ α) (d : StreamingSoundData σ α) : Except Err (Sys σ 
 
 /-! ### the decoder thread: `DecodeScheduler` -/
 
-/-- mirrors: DecodeScheduler::seek_to_index (`transport.seek_to` first, then `decoder.seek(index)?`) -/
+/-- mirrors: streaming/sound/decode_scheduler.rs::DecodeScheduler::seek_to_index (`transport.seek_to` first, then `decoder.seek(index)?`) -/
 def seekToIndex (D : Decoder σ α) (s : Sys σ α) (index : Nat) : Except (Abort × Sys σ α) (Sys σ α) :=
   match s.transport.seekTo index s.cfg.numFrames with
   | .error f => .error (.fault f, s)
@@ -206,11 +206,11 @@ def seekToIndex (D : Decoder σ α) (s : Sys σ α) (index : Nat) : Except (Abor
     | .error e => .error (abortOfErr e, s1)
     | .ok ds' => .ok { s1 with ds := ds' }
 
-/-- mirrors: DecodeScheduler::seek_to (`(position * sample_rate as f64).round() as usize`) -/
+/-- mirrors: streaming/sound/decode_scheduler.rs::DecodeScheduler::seek_to (`(position * sample_rate as f64).round() as usize`) -/
 def seekTo (D : Decoder σ α) (s : Sys σ α) (position : α) : Except (Abort × Sys σ α) (Sys σ α) :=
   seekToIndex D s (KOps.toNatSat (roundHalfAway (position * (KOps.ofNat s.sampleRate : α))))
 
-/-- mirrors: DecodeScheduler::seek_by (`shared.position() + amount`) -/
+/-- mirrors: streaming/sound/decode_scheduler.rs::DecodeScheduler::seek_by (`shared.position() + amount`) -/
 def seekBy (D : Decoder σ α) (s : Sys σ α) (amount : α) : Except (Abort × Sys σ α) (Sys σ α) :=
   seekTo D s (s.sharedPosition + amount)
 
@@ -251,7 +251,7 @@ def produce (D : Decoder σ α) (fuel : Nat) (s : Sys σ α) : RunOutcome × Sys
         let s3 := { s2 with transport := t }
         if !t.playing then (.ok .end, { s3 with reachedEnd := true }) else (.ok .continue, s3)
 
-/-- mirrors: DecodeScheduler::run — one iteration of the decoder loop body -/
+/-- mirrors: streaming/sound/decode_scheduler.rs::DecodeScheduler::run — one iteration of the decoder loop body -/
 def run (D : Decoder σ α) (fuel : Nat) (s : Sys σ α) : RunOutcome × Sys σ α :=
   if s.core.shared = .stopped then (.ok .end, s)
   else if s.ring.isFull then (.ok .wait, s)
@@ -272,7 +272,7 @@ def pushError (s : Sys σ α) (e : Err) : Sys σ α :=
 /-- `self.shared.encountered_error.store(true)` -/
 def setErrorFlag (s : Sys σ α) : Sys σ α := { s with encounteredError := true }
 
-/-- mirrors: the body of the `loop` in DecodeScheduler::start -/
+/-- mirrors: streaming/sound/decode_scheduler.rs::DecodeScheduler::start (the body of the `loop`) -/
 def threadIter (D : Decoder σ α) (fuel : Nat) (s : Sys σ α) : ThreadStep × Sys σ α :=
   match run D fuel s with
   | (.ok .continue, s') => (.continue, s')
@@ -283,16 +283,16 @@ def threadIter (D : Decoder σ α) (fuel : Nat) (s : Sys σ α) : ThreadStep × 
 
 /-! ### the handle -/
 
-/-- mirrors: StreamingSoundHandle::state -/
+/-- mirrors: streaming/handle.rs::StreamingSoundHandle::state -/
 def handleState (s : Sys σ α) : PlaybackState := s.core.shared
 
-/-- mirrors: StreamingSoundHandle::position -/
+/-- mirrors: streaming/handle.rs::StreamingSoundHandle::position -/
 def handlePosition (s : Sys σ α) : α := s.sharedPosition
 
-/-- mirrors: the command-writing methods of StreamingSoundHandle (same nine kinds as the static handle) -/
+/-- mirrors: streaming/handle.rs::StreamingSoundHandle (its command-writing methods; same nine kinds as the static handle) -/
 def write (s : Sys σ α) (c : Command α) : Sys σ α := { s with cmds := s.cmds.write c }
 
-/-- mirrors: StreamingSoundHandle::pop_error -/
+/-- mirrors: streaming/handle.rs::StreamingSoundHandle::pop_error -/
 def popError (s : Sys σ α) : Option Err × Sys σ α :=
   match s.errRing.pop with
   | some (e, r) => (some e, { s with errRing := r })
@@ -300,23 +300,23 @@ def popError (s : Sys σ α) : Option Err × Sys σ α :=
 
 /-! ### the audio thread: `StreamingSound` -/
 
-/-- mirrors: StreamingSound::update_current_frame (`iter.nth(1)` of the first ≤ 4 ring entries) -/
+/-- mirrors: streaming/sound.rs::StreamingSound::update_current_frame (`iter.nth(1)` of the first ≤ 4 ring entries) -/
 def updateCurrentFrame (s : Sys σ α) : Sys σ α :=
   match s.ring.items[1]? with
   | some tf => { s with currentFrame := tf.index }
   | none => s
 
-/-- mirrors: StreamingSound::next_frames, entry `i` (`Frame::ZERO` when the ring is shorter) -/
+/-- mirrors: streaming/sound.rs::StreamingSound::next_frames, entry `i` (`Frame::ZERO` when the ring is shorter) -/
 def nextFrame (s : Sys σ α) (i : Nat) : Frame α :=
   match s.ring.items[i]? with
   | some tf => tf.frame
   | none => Frame.zero
 
-/-- mirrors: StreamingSound::position -/
+/-- mirrors: streaming/sound.rs::StreamingSound::position -/
 def position (s : Sys σ α) : α :=
   ((KOps.ofNat s.currentFrame : α) + s.frac) / (KOps.ofNat s.sampleRate : α)
 
-/-- mirrors: StreamingSound::read_commands (volume, playback_rate, panning, pause, resume, stop — the six
+/-- mirrors: streaming/sound.rs::StreamingSound::read_commands (volume, playback_rate, panning, pause, resume, stop — the six
     slots of `CommandReaders`; the other three are the decoder's) -/
 def readCommands (s : Sys σ α) : Sys σ α :=
   let c := s.cmds
@@ -329,7 +329,7 @@ def readCommands (s : Sys σ α) : Sys σ α :=
              (applyOpt c.resume (fun p core => core.resume p.1 p.2)
                (applyOpt c.pause (fun tw core => core.pause tw) s.core))) }
 
-/-- mirrors: `impl Sound for StreamingSound`::on_start_processing -/
+/-- mirrors: streaming/sound.rs::StreamingSound::on_start_processing (`impl Sound for StreamingSound`) -/
 def onStartProcessing (s : Sys σ α) : Sys σ α :=
   let s1 := updateCurrentFrame s
   readCommands { s1 with sharedPosition := s1.position }
@@ -403,14 +403,14 @@ def processOk (fuel : Nat) (s : Sys σ α) (len : Nat) (dt : α) (info : Info α
     else renderLoop fuel dt len len 0 s1
   else .ok (s1, List.replicate len Frame.zero)
 
-/-- mirrors: `impl Sound for StreamingSound`::process on a buffer of `len` frames -/
+/-- mirrors: streaming/sound.rs::StreamingSound::process (`impl Sound for StreamingSound`) on a buffer of `len` frames -/
 def process (fuel : Nat) (s : Sys σ α) (len : Nat) (dt : α) (info : Info α) :
     Except Fault (Sys σ α × List (Frame α)) :=
   if s.encounteredError then
     .ok ({ s with core := s.core.markStopped }, List.replicate len Frame.zero)
   else processOk fuel s len dt info
 
-/-- mirrors: Sound::finished -/
+/-- mirrors: streaming/sound.rs::StreamingSound::finished -/
 def finished (s : Sys σ α) : Bool := s.core.finished
 
 /-! ### histories -/
